@@ -1,6 +1,8 @@
 package rlwe
 
 import (
+	"math/big"
+
 	"github.com/tuneinsight/lattigo/v6/ring"
 )
 
@@ -74,9 +76,63 @@ func vExpandNative() {
 	}
 }
 
+// vExpandGapNative: the real Expand with a gap; the constant term of output i (i divisible by the gap) is coefficient i.
+func vExpandGapNative() {
+	c := VerifSetup_Ctx(2, false)
+	params := c.Params
+	c.Kgen.GenSecretKey(c.Sk)
+	rpk := &RingPackingEvaluationKey{Parameters: map[int]ParameterProvider{params.LogN(): params}}
+	rpk.GenExtractEvaluationKeys(params, c.Sk, EvaluationKeyParameters{})
+	eval := NewRingPackingEvaluator(rpk)
+	level := params.MaxLevel()
+	rQ := params.RingQ().AtLevel(level)
+	for _, logGap := range []int{1, 2} {
+		tag := "gap" + vItoa(1<<logGap)
+		pt := NewPlaintext(params, level)
+		p := make([]uint64, params.N())
+		for i := range p {
+			p[i] = uint64(1)<<40 + uint64(37*i)
+			for k, s := range rQ.SubRings[:level+1] {
+				pt.Value.Coeffs[k][i] = p[i] % s.Modulus
+			}
+		}
+		rQ.NTT(pt.Value, pt.Value)
+		pt.IsNTT = true
+		ct := NewCiphertext(params, 1, level)
+		if err := c.EncSk.Encrypt(pt, ct); err != nil {
+			panic(err)
+		}
+		cts, err := eval.Expand(ct, logGap)
+		vAssert(err == nil, tag+"-Expand-no-error")
+		if err != nil {
+			continue
+		}
+		for i := 0; i < params.N(); i += 1 << logGap {
+			o, ok := cts[i]
+			vAssert(ok && o != nil, tag+"-output-present-for-every-index-divisible-by-the-gap")
+			if !ok || o == nil {
+				continue
+			}
+			out := NewPlaintext(params, level)
+			c.Dec.Decrypt(o, out)
+			if out.IsNTT {
+				rQ.INTT(out.Value, out.Value)
+			}
+			coeffs := make([]*big.Int, params.N())
+			for j := range coeffs {
+				coeffs[j] = new(big.Int)
+			}
+			rQ.PolyToBigintCentered(out.Value, 1, coeffs)
+			d := new(big.Int).Sub(coeffs[0], new(big.Int).SetUint64(p[i]))
+			vAssert(d.CmpAbs(new(big.Int).Lsh(big.NewInt(1), 30)) < 0, tag+"-output-i-holds-coefficient-i-as-its-constant-term")
+		}
+	}
+}
+
 func VerifH_C04_RingPackingExpand() {
 	if !vIsAlgebraic() {
 		vExpandNative()
+		vExpandGapNative()
 		return
 	}
 	c := VerifSetup_Ctx(2, true)
@@ -122,6 +178,40 @@ func VerifH_C04_RingPackingExpand() {
 				want := make([]uint64, params.N())
 				want[0] = p[k][i]
 				vAssertEqMod(v0.Coeffs[k], want, s.Modulus, tag+"-output-i-holds-coefficient-i-as-its-constant-term")
+				vAssertEqMod(v1.Coeffs[k], make([]uint64, params.N()), s.Modulus, tag+"-second-component-stays-zero")
+			}
+		}
+	}
+	// with a gap: only the indexes divisible by 2^logGap are returned; output i still holds coefficient i as its
+	// constant term (the other positions may keep coefficients of the skipped residue classes)
+	for _, logGap := range []int{1, 2} {
+		level := params.MaxLevel()
+		tag := "gap" + vItoa(1<<logGap)
+		rQ := params.RingQ().AtLevel(level)
+		ct := NewCiphertext(params, 1, level)
+		ct.IsNTT = false
+		var p [][]uint64
+		for k, s := range rQ.SubRings[:level+1] {
+			a := vAtoms("g", vMessage, s.Modulus, params.N())
+			copy(ct.Value[0].Coeffs[k], a)
+			p = append(p, a)
+		}
+		cts, err := eval.Expand(ct, logGap)
+		vAssert(err == nil, tag+"-Expand-no-error")
+		if err != nil {
+			continue
+		}
+		for i := 0; i < params.N(); i += 1 << logGap {
+			o, ok := cts[i]
+			vAssert(ok && o != nil, tag+"-output-present-for-every-index-divisible-by-the-gap")
+			if !ok || o == nil {
+				continue
+			}
+			v0, v1 := rQ.NewPoly(), rQ.NewPoly()
+			rQ.INTT(o.Value[0], v0)
+			rQ.INTT(o.Value[1], v1)
+			for k, s := range rQ.SubRings[:level+1] {
+				vAssertEqMod(v0.Coeffs[k][:1], p[k][i:i+1], s.Modulus, tag+"-output-i-holds-coefficient-i-as-its-constant-term")
 				vAssertEqMod(v1.Coeffs[k], make([]uint64, params.N()), s.Modulus, tag+"-second-component-stays-zero")
 			}
 		}
